@@ -37,6 +37,7 @@ class Report:
         s.findings = []
         s.notes = []
         s._floors = floors; s._record = record
+        s.ctx = None
         s.floor_counts = {}
         s.broken = []
 
@@ -54,7 +55,17 @@ class Report:
         s.evaluations += n
 
     def finding(s, fn, desc, msg, loc="", witness=None):
-        s.findings.append(Finding(s.rule, fn, desc, msg, loc, witness))
+        s.findings.append(Finding(s.rule, s.stable_fn(fn), desc, msg, loc, witness))
+
+    def stable_fn(s, fn):
+        """closure ordinals ({closure#3}) change when an unrelated closure is added before it:
+        name closures by their enclosing function and what they do"""
+        if "{closure#" not in fn or s.ctx is None:
+            return fn
+        import shared
+        b = s.ctx.prog.bodies.get(fn)
+        encl = b.encl if b is not None and b.encl else fn.split("::{closure#")[0]
+        return "%s::{%s}" % (encl, shared.closure_desc(s.ctx, fn))
 
     def note(s, text):
         s.notes.append(text)
@@ -133,6 +144,7 @@ def run_property(pid, tier, rules, seed=0, record_floors=False, replay_key=None,
         reports = []
         for rid, text, fn in rules:
             r = Report(rid, text, floors, record)
+            r.ctx = ctx
             try:
                 fn(ctx, r)
             except AnchorMissing as e:
